@@ -208,6 +208,20 @@ func init() {
 	})
 }
 
+// ---- Tokenized protocol (C08) ---------------------------------------------------------------------
+func init() {
+	reg("github.com/tokenized/specification/dist/golang/protocol.Deserialize", "decodes a Tokenized action from a locking script: an uninterpreted function of the script bytes and the test flag; a nil error comes with a non-nil action, an error with a nil one", nil,
+		func(fr *Frame, st *State, c *ssa.CallCommon, args []Val, res ssa.Value) Val {
+			v := fr.v
+			out := fr.freshResult(st, c, res)
+			f := v.smt.declareFun("uf!TokenizedAction", []string{"Int", "Bool"}, "Iface")
+			act := app(f, v.sliceBlob(st, fr.term(st, c.Args[0])), fr.term(st, c.Args[1]))
+			v.smt.assert(eq(out.Tuple[0].T, act))
+			v.smt.assert(eq(eq(out.Tuple[1].T, "(mk-iface 0 0)"), not(eq(act, "(mk-iface 0 0)"))))
+			return out
+		})
+}
+
 // ---- outgoing messages (C14) ---------------------------------------------------------------------
 func init() {
 	regInvoke("github.com/tokenized/spynode/internal/state.MessageTransmitter.TransmitMessage", "hands a message to the connection's outgoing queue: a ghost flag records that this message object was transmitted; result unconstrained (false = node stopping)", func(ms *ModSet, c *ssa.CallCommon) {
